@@ -519,6 +519,7 @@ class VM:
                     # __proto__ in object literal sets the prototype
                     if value is NULL or value is None:
                         obj._prototype = None
+                        obj._null_prototype = True
                     elif isinstance(value, JSObject):
                         obj._prototype = value
                 else:
@@ -1263,6 +1264,7 @@ class VM:
             # Walk the chain one object at a time: the nearest property wins, be it
             # an accessor or a data property; accessors run with the receiver as this
             current = obj
+            root = obj
             while isinstance(current, JSObject):
                 getter = current._getters.get(key_str)
                 if getter is not None:
@@ -1271,9 +1273,14 @@ class VM:
                     return current._properties[key_str]
                 if key_str in current._setters:
                     return UNDEFINED  # accessor without getter
+                root = current
                 current = getattr(current, "_prototype", None)
-            # Built-in Object methods as fallback
-            if key_str in ("toString", "hasOwnProperty"):
+            # Built-in Object methods as fallback for engine-made objects that were
+            # never linked to Object.prototype; an object whose chain was cut on
+            # purpose (Object.create(null), setPrototypeOf(o, null)) inherits nothing
+            if key_str in ("toString", "hasOwnProperty") and not getattr(
+                root, "_null_prototype", False
+            ):
                 return self._make_object_method(obj, key_str)
             return UNDEFINED
 
